@@ -32,7 +32,7 @@ def load_inventory() -> Optional[Set[str]]:
     try:
         with open(INVENTORY, encoding="utf-8") as fh:
             return {l.strip() for l in fh if l.strip() and not l.startswith("#") and not l.startswith("attr ")
-                    and not l.startswith("sig ")}
+                    and not l.startswith("sig ") and not l.startswith("deco ")}
     except OSError:
         return None
 
@@ -292,6 +292,10 @@ def normalise(modules: Dict[str, Tuple[str, str, ast.Module]]) -> List[str]:
     log: List[str] = []
     if inv is None:
         return log
+    _structural_normal_forms(modules, inv, log)
+    for mod, (rel, src, tree) in modules.items():
+        _Idioms(log, mod).visit(tree)
+        _fold_constants(tree)
     helpers: Dict[Tuple[Optional[str], str], Helper] = {}
     consts: Dict[str, Dict[str, ast.AST]] = {}
     for mod, (rel, src, tree) in modules.items():
@@ -555,6 +559,23 @@ def _inline_pass(tree: ast.Module, helpers, counter, log, mod) -> bool:
                     h_.body = process_block(h_.body, cls_ctx, in_helper)
             call = None
             kind = None
+            # hoist `recv.m(helper(...))` / `x = f(helper(...))`: the helper call becomes its own
+            # assignment when everything evaluated before it is a plain read
+            outer = st.value if isinstance(st, (ast.Expr, ast.Assign)) and isinstance(getattr(st, "value", None), ast.Call) else None
+            if outer is not None and _find_helper(outer, helpers, cls_ctx)[0] is None and len(outer.args) >= 1 \
+                    and isinstance(outer.args[0], ast.Call) and _alias_read(outer.func) and not outer.keywords:
+                h0, _m0 = _find_helper(outer.args[0], helpers, cls_ctx)
+                if h0 is not None and not h0.single_expr and h0.node is not getattr(in_helper, "node", None) \
+                        and all(_alias_read(a) for a in outer.args[1:]):
+                    counter[0] += 1
+                    tmp = f"_inl{counter[0]}_ret"
+                    pre_ = ast.copy_location(ast.Assign(targets=[ast.Name(id=tmp, ctx=ast.Store())], value=outer.args[0]), st)
+                    outer.args[0] = ast.copy_location(ast.Name(id=tmp, ctx=ast.Load()), outer.args[0])
+                    ast.fix_missing_locations(pre_)
+                    out.extend(process_block([pre_], cls_ctx, in_helper))
+                    out.append(st)
+                    changed = True
+                    continue
             if isinstance(st, ast.Assign) and isinstance(st.value, ast.Call) and len(st.targets) == 1:
                 call, kind = st.value, "assign"
             elif isinstance(st, ast.AnnAssign) and isinstance(st.value, ast.Call):
@@ -772,6 +793,11 @@ def _local_normal_forms(tree: ast.Module, log: List[str], mod: str, inv: Set[str
                         return ast.copy_location(_clone(flags[n.id]), n)
                     return n
             Sub().visit(fn)
+        # N00: `x: T = v` on a plain local is `x = v`
+        for blk in _blocks(fn):
+            for i_, st in enumerate(list(blk)):
+                if isinstance(st, ast.AnnAssign) and st.value is not None and isinstance(st.target, ast.Name) and st.simple:
+                    blk[blk.index(st)] = ast.copy_location(ast.Assign(targets=[st.target], value=st.value), st)
         # N0: the local that receives the updater closure has one canonical name
         for st in ast.walk(fn):
             if isinstance(st, ast.Assign) and len(st.targets) == 1 and isinstance(st.targets[0], ast.Name) \
@@ -788,6 +814,45 @@ def _local_normal_forms(tree: ast.Module, log: List[str], mod: str, inv: Set[str
         for n in ast.walk(fn):
             if isinstance(n, ast.Name) and isinstance(n.ctx, ast.Load):
                 loads[n.id] = loads.get(n.id, 0) + 1
+        # N15: a for-loop over a literal tuple of tuples of plain reads is unrolled (table-driven dispatch)
+        for blk in _blocks(fn):
+            i = 0
+            while i < len(blk):
+                st = blk[i]
+                if isinstance(st, ast.For) and not st.orelse and not any(isinstance(x, (ast.Break, ast.Continue)) for x in ast.walk(st)):
+                    table = st.iter
+                    src_stmt = None
+                    if isinstance(table, ast.Name) and stores.get(table.id, 0) == 1 and loads.get(table.id, 0) == 1:
+                        tname = table.id
+                        for b2 in _blocks(fn):
+                            for s2 in b2:
+                                if isinstance(s2, ast.Assign) and len(s2.targets) == 1 and isinstance(s2.targets[0], ast.Name) \
+                                        and s2.targets[0].id == tname:
+                                    table, src_stmt = s2.value, (b2, s2)
+                    tnames = [e.id for e in st.target.elts] if isinstance(st.target, ast.Tuple) and all(
+                        isinstance(e, ast.Name) for e in st.target.elts) else ([st.target.id] if isinstance(st.target, ast.Name) else None)
+                    if isinstance(table, (ast.Tuple, ast.List)) and tnames and 0 < len(table.elts) <= 8 and all(
+                            (isinstance(r, (ast.Tuple, ast.List)) and len(r.elts) == len(tnames) and all(_alias_read(x) for x in r.elts))
+                            if len(tnames) > 1 or isinstance(st.target, ast.Tuple) else _alias_read(r) for r in table.elts) \
+                            and not any(isinstance(x, ast.Name) and x.id in tnames and isinstance(x.ctx, ast.Store)
+                                        for b_ in st.body for x in ast.walk(b_)):
+                        later_use = any(isinstance(x, ast.Name) and x.id in tnames for s2 in blk[i + 1:] for x in ast.walk(s2))
+                        if not later_use:
+                            unrolled = []
+                            for r in table.elts:
+                                vals = r.elts if isinstance(st.target, ast.Tuple) else [r]
+                                mp = dict(zip(tnames, vals))
+                                for b_ in st.body:
+                                    unrolled.append(_Renamer(mp, "", set()).visit(_clone(b_)))
+                            blk[i:i + 1] = unrolled
+                            if src_stmt is not None and src_stmt[1] in src_stmt[0]:
+                                src_stmt[0].remove(src_stmt[1])
+                                if src_stmt[0] is blk:
+                                    i -= 1
+                            log.append(f"{mod}: table-driven loop in {fn.name} unrolled ({len(table.elts)} rows)")
+                            i += len(unrolled)
+                            continue
+                i += 1
         # N12: `if (x := E) <rest>:` where the walrus is the first thing evaluated -> `x = E; if x <rest>:`
         for blk in _blocks(fn):
             i = 0
@@ -851,7 +916,9 @@ def _local_normal_forms(tree: ast.Module, log: List[str], mod: str, inv: Set[str
             while k < len(blk):
                 st = blk[k]
                 if not (isinstance(st, ast.Assign) and len(st.targets) == 1 and isinstance(st.targets[0], ast.Name)
-                        and _alias_read(st.value) and isinstance(st.value, (ast.Attribute, ast.Subscript))):
+                        and _alias_read(st.value) and (isinstance(st.value, (ast.Attribute, ast.Subscript))
+                                                       or (isinstance(st.value, ast.Name) and st.value.id in frozen
+                                                           and stores.get(st.targets[0].id, 0) == 1))):
                     k += 1
                     continue
                 x = st.targets[0].id
@@ -916,7 +983,7 @@ def _local_normal_forms(tree: ast.Module, log: List[str], mod: str, inv: Set[str
             while i + 1 < len(blk):
                 st, nxt = blk[i], blk[i + 1]
                 if isinstance(st, ast.Assign) and len(st.targets) == 1 and isinstance(st.targets[0], ast.Name) \
-                        and isinstance(nxt, ast.If) and isinstance(st.value, (ast.BoolOp, ast.Compare, ast.UnaryOp)):
+                        and isinstance(nxt, ast.If) and isinstance(st.value, (ast.BoolOp, ast.Compare, ast.UnaryOp, ast.IfExp, ast.Call)):
                     nm = st.targets[0].id
                     if stores.get(nm, 0) == 1 and loads.get(nm, 0) == 1 and nm not in params:
                         t = nxt.test
@@ -980,6 +1047,80 @@ def _local_normal_forms(tree: ast.Module, log: List[str], mod: str, inv: Set[str
                             return n
                     L().visit(fn)
                     log.append(f"{mod}: nested function {name_} in {fn.name} replaced by a lambda")
+        # N1c: a local bound once and read once, in the very next statement, before any call of that
+        # statement is invoked, is replaced by its defining expression
+        for blk in _blocks(fn):
+            i = 0
+            while i + 1 < len(blk):
+                st, nxt = blk[i], blk[i + 1]
+                if isinstance(st, ast.Assign) and len(st.targets) == 1 and isinstance(st.targets[0], ast.Name) \
+                        and stores.get(st.targets[0].id, 0) == 1 and loads.get(st.targets[0].id, 0) == 1 \
+                        and st.targets[0].id not in params and isinstance(nxt, (ast.Return, ast.Assign, ast.Expr, ast.If)) \
+                        and not isinstance(st.value, (ast.Lambda, ast.ListComp, ast.DictComp, ast.SetComp, ast.GeneratorExp,
+                                                      ast.List, ast.Dict, ast.Set)):
+                    nm = st.targets[0].id
+                    root = nxt.test if isinstance(nxt, ast.If) else nxt.value
+                    if root is not None:
+                        order = list(_eval_order(root))
+                        pos = [k for k, x in enumerate(order) if isinstance(x, ast.Name) and x.id == nm and isinstance(x.ctx, ast.Load)]
+                        if len(pos) == 1 and not any(isinstance(x, (ast.Call, ast.Await, ast.Yield, ast.NamedExpr)) for x in order[:pos[0]]) \
+                                and not _inside_lazy(root, order[pos[0]]):
+                            use = order[pos[0]]
+
+                            class _U(ast.NodeTransformer):
+                                def visit_Name(self, n_):
+                                    return ast.copy_location(st.value, n_) if n_ is use else n_
+                            if isinstance(nxt, ast.If):
+                                nxt.test = _U().visit(nxt.test)
+                            else:
+                                nxt.value = _U().visit(nxt.value)
+                            del blk[i]
+                            loads[nm] = 0
+                            log.append(f"{mod}: single-use local {nm} in {fn.name} folded into the next statement")
+                            continue
+                i += 1
+        # N18: `x = E` directly followed by `<target> = x` (x used nowhere else) -> `<target> = E`
+        for blk in _blocks(fn):
+            i = 0
+            while i + 1 < len(blk):
+                st, nxt = blk[i], blk[i + 1]
+                if isinstance(st, ast.Assign) and len(st.targets) == 1 and isinstance(st.targets[0], ast.Name) \
+                        and isinstance(nxt, ast.Assign) and isinstance(nxt.value, ast.Name) and nxt.value.id == st.targets[0].id \
+                        and stores.get(st.targets[0].id, 0) == 1 and loads.get(st.targets[0].id, 0) == 1 \
+                        and st.targets[0].id not in params:
+                    nxt.value = st.value
+                    del blk[i]
+                    log.append(f"{mod}: forwarding local {st.targets[0].id} in {fn.name} removed")
+                    continue
+                i += 1
+        # N17: `if c: pass else: B` -> `if not c: B`; a trailing `else: pass` is dropped
+        for n in ast.walk(fn):
+            if isinstance(n, ast.If):
+                if n.orelse and all(isinstance(x, ast.Pass) for x in n.orelse):
+                    n.orelse = []
+                if n.orelse and n.body and all(isinstance(x, ast.Pass) for x in n.body):
+                    n.test = ast.copy_location(ast.UnaryOp(op=ast.Not(), operand=n.test), n.test)
+                    n.body, n.orelse = n.orelse, []
+        # N16: a local bound once to an empty literal / constant and only passed on as an argument is that literal
+        for blk in _blocks(fn):
+            for st in list(blk):
+                if isinstance(st, ast.Assign) and len(st.targets) == 1 and isinstance(st.targets[0], ast.Name) \
+                        and stores.get(st.targets[0].id, 0) == 1 and st.targets[0].id not in params \
+                        and ((isinstance(st.value, (ast.List, ast.Tuple)) and not st.value.elts)
+                             or (isinstance(st.value, ast.Dict) and not st.value.keys)):
+                    nm = st.targets[0].id
+                    uses = [x for x in ast.walk(fn) if isinstance(x, ast.Name) and x.id == nm and isinstance(x.ctx, ast.Load)]
+                    if len(uses) == 1:
+                        par = None
+                        for c in ast.walk(fn):
+                            if isinstance(c, ast.Call) and any(a is uses[0] for a in c.args):
+                                par = c
+                        if par is not None:
+                            par.args = [(_clone(st.value) if a is uses[0] else a) for a in par.args]
+                            blk.remove(st)
+                            if not blk:
+                                blk.append(ast.Pass())
+                            log.append(f"{mod}: empty literal {nm} in {fn.name} passed directly")
         # N8: `if a: if b: body` (no else on either) -> `if a and b: body`
         for _ in range(3):
             merged = False
@@ -1023,8 +1164,14 @@ def _local_normal_forms(tree: ast.Module, log: List[str], mod: str, inv: Set[str
                     nxt = blk[i + 1]
                     if not any(isinstance(x, ast.Name) and x.id == nm for x in ast.walk(nxt.test)) and nxt.body \
                             and isinstance(nxt.body[0], ast.Assign) and len(nxt.body[0].targets) == 1 \
-                            and isinstance(nxt.body[0].targets[0], ast.Name) and nxt.body[0].targets[0].id == nm \
-                            and not any(isinstance(x, ast.Name) and x.id == nm for x in ast.walk(nxt.body[0].value)):
+                            and isinstance(nxt.body[0].targets[0], ast.Name) and nxt.body[0].targets[0].id == nm:
+                        # the override may mention the default (x = f(x)): the default's value is substituted
+                        class _S(ast.NodeTransformer):
+                            def visit_Name(self, n_):
+                                if n_.id == nm and isinstance(n_.ctx, ast.Load):
+                                    return ast.copy_location(_clone(st.value), n_)
+                                return n_
+                        nxt.body[0].value = _S().visit(nxt.body[0].value)
                         nxt.orelse = [st]
                         del blk[i]
                         log.append(f"{mod}: default assignment of {nm} in {fn.name} moved into the else branch")
@@ -1076,6 +1223,47 @@ def _alias_read(e: ast.AST) -> bool:
         return _alias_read(e.value) and _alias_read(e.slice)
     if isinstance(e, ast.BinOp) and isinstance(e.op, (ast.Add, ast.Sub)):
         return _alias_read(e.left) and _alias_read(e.right)
+    return False
+
+
+def _eval_order(e: ast.AST):
+    """Sub-expressions in (approximate) evaluation order; a call is yielded after its arguments."""
+    if isinstance(e, ast.IfExp):
+        yield from _eval_order(e.test)
+        yield from _eval_order(e.body)
+        yield from _eval_order(e.orelse)
+        yield e
+        return
+    if isinstance(e, ast.Call):
+        yield from _eval_order(e.func)
+        for a in e.args:
+            yield from _eval_order(a)
+        for k in e.keywords:
+            yield from _eval_order(k.value)
+        yield e
+        return
+    if isinstance(e, (ast.Lambda, ast.ListComp, ast.DictComp, ast.SetComp, ast.GeneratorExp)):
+        for x in ast.walk(e):
+            yield x
+        return
+    for c in ast.iter_child_nodes(e):
+        if isinstance(c, ast.expr):
+            yield from _eval_order(c)
+    yield e
+
+
+def _inside_lazy(root: ast.AST, node: ast.AST) -> bool:
+    """Is `node` inside a lambda/comprehension (evaluated later, maybe repeatedly) or a conditional arm?"""
+    for x in ast.walk(root):
+        if isinstance(x, (ast.Lambda, ast.ListComp, ast.DictComp, ast.SetComp, ast.GeneratorExp)):
+            if any(y is node for y in ast.walk(x)):
+                return True
+        if isinstance(x, ast.IfExp):
+            if any(y is node for y in ast.walk(x.body)) or any(y is node for y in ast.walk(x.orelse)):
+                return True
+        if isinstance(x, ast.BoolOp):
+            if any(y is node for v in x.values[1:] for y in ast.walk(v)):
+                return True
     return False
 
 
@@ -1250,3 +1438,217 @@ def _sentinel_result(fn: ast.FunctionDef) -> Optional[str]:
         fn.body = body[:k] + mids + new_tail
         return v
     return None
+
+
+# ------------------------------------------------------------- structural normal forms
+def _structural_normal_forms(modules, inv: Set[str], log: List[str]) -> None:
+    """Undo class-structure refactorings relative to the inventory: private mixins are flattened into
+    the classes that inherit them, a method turned into a module-level function is re-attached,
+    `X = _factory("const")` becomes the function the factory returns, a decorator that only composes
+    other decorators is expanded."""
+    sigs = load_sig_inventory()
+    # (a) flatten new private mixin / base classes
+    for mod, (rel, src, tree) in modules.items():
+        new_classes = {c.name: c for c in tree.body if isinstance(c, ast.ClassDef) and c.name.startswith("_")
+                       and c.name not in inv}
+        if not new_classes:
+            continue
+        for _ in range(3):  # mixins of mixins
+            for c in [x for x in tree.body if isinstance(x, ast.ClassDef)]:
+                for b in list(c.bases):
+                    if isinstance(b, ast.Name) and b.id in new_classes and new_classes[b.id] is not c:
+                        m = new_classes[b.id]
+                        have = {s.name for s in c.body if isinstance(s, ast.FunctionDef)} | \
+                               {t.id for s in c.body if isinstance(s, ast.Assign) for t in s.targets if isinstance(t, ast.Name)}
+                        for s in m.body:
+                            if isinstance(s, ast.FunctionDef) and s.name not in have:
+                                c.body.append(copy.deepcopy(s))
+                            elif isinstance(s, ast.Assign) and all(isinstance(t, ast.Name) and t.id not in have for t in s.targets):
+                                c.body.insert(0, copy.deepcopy(s))
+                            elif isinstance(s, ast.AnnAssign) and isinstance(s.target, ast.Name) and s.target.id not in have:
+                                c.body.insert(0, copy.deepcopy(s))
+                        c.bases.remove(b)
+                        for mb in m.bases:
+                            if not any(ast.dump(mb) == ast.dump(x) for x in c.bases) and not (
+                                    isinstance(mb, ast.Name) and mb.id == "object"):
+                                c.bases.append(copy.deepcopy(mb))
+                        log.append(f"{mod}: private base class {m.name} flattened into {c.name}")
+        used = {n.id for n in ast.walk(tree) if isinstance(n, ast.Name) and isinstance(n.ctx, ast.Load)}
+        tree.body = [s for s in tree.body if not (isinstance(s, ast.ClassDef) and s.name in new_classes and s.name not in used)]
+    # (b) re-attach a method that became a module-level function
+    classes = {}
+    for mod, (rel, src, tree) in modules.items():
+        for c in tree.body:
+            if isinstance(c, ast.ClassDef):
+                classes[c.name] = (mod, tree, c)
+    for mod, (rel, src, tree) in list(modules.items()):
+        for fn in [s for s in tree.body if isinstance(s, ast.FunctionDef) and s.name.startswith("_")
+                   and s.name not in inv and not s.decorator_list]:
+            owners = [k.split(".", 1)[0] for k in sigs if k.split(".", 1)[1] == fn.name]
+            owners = [o for o in owners if o in classes and not any(
+                isinstance(s, ast.FunctionDef) and s.name == fn.name for s in classes[o][2].body)]
+            if len(owners) != 1:
+                continue
+            cname = owners[0]
+            npar_inv = int(sigs[f"{cname}.{fn.name}"].split("|", 1)[0])
+            a = fn.args
+            npar = len(a.posonlyargs) + len(a.args) + len(a.kwonlyargs)
+            cmod, ctree, cnode = classes[cname]
+            calls = [c for (_, _, t) in modules.values() for c in ast.walk(t)
+                     if isinstance(c, ast.Call) and isinstance(c.func, ast.Name) and c.func.id == fn.name]
+            if not calls:
+                continue
+            meth = copy.deepcopy(fn)
+            if npar == npar_inv and a.args:
+                inst = a.args[0].arg
+                for n in ast.walk(meth):
+                    if isinstance(n, ast.Name) and n.id == inst:
+                        n.id = "self"
+                meth.args.args[0].arg = "self"
+                meth.args.args[0].annotation = None
+                if not all(c.args for c in calls):
+                    continue
+                for c in calls:
+                    recv = c.args[0]
+                    c.func = ast.copy_location(ast.Attribute(value=recv, attr=fn.name, ctx=ast.Load()), c.func)
+                    c.args = c.args[1:]
+            elif npar == npar_inv - 1:
+                meth.args.args.insert(0, ast.arg(arg="self"))
+                for c in calls:
+                    c.func = ast.copy_location(ast.Attribute(value=ast.Name(id="self", ctx=ast.Load()), attr=fn.name,
+                                                             ctx=ast.Load()), c.func)
+            else:
+                continue
+            cnode.body.append(meth)
+            tree.body.remove(fn)
+            log.append(f"{mod}: module-level function {fn.name} re-attached as {cname}.{fn.name}")
+    # (c) X = _factory(<constants>) where the factory returns a nested function
+    for mod, (rel, src, tree) in modules.items():
+        facts = {s.name: s for s in tree.body if isinstance(s, ast.FunctionDef) and s.name.startswith("_")
+                 and s.name not in inv and not s.decorator_list}
+        for i, st in enumerate(list(tree.body)):
+            if isinstance(st, ast.Assign) and len(st.targets) == 1 and isinstance(st.targets[0], ast.Name) \
+                    and isinstance(st.value, ast.Call) and isinstance(st.value.func, ast.Name) and st.value.func.id in facts \
+                    and all(isinstance(x, ast.Constant) for x in st.value.args) and not st.value.keywords:
+                f = facts[st.value.func.id]
+                body = _docless(f.body)
+                if len(body) == 2 and isinstance(body[0], ast.FunctionDef) and isinstance(body[1], ast.Return) \
+                        and isinstance(body[1].value, ast.Name) and body[1].value.id == body[0].name \
+                        and len(f.args.args) == len(st.value.args):
+                    inner = copy.deepcopy(body[0])
+                    inner.name = st.targets[0].id
+                    mapping = {p_.arg: v for p_, v in zip(f.args.args, st.value.args)}
+                    inner = _Renamer(mapping, "", set()).visit(inner)
+                    inner.name = st.targets[0].id
+                    tree.body[tree.body.index(st)] = ast.copy_location(inner, st)
+                    log.append(f"{mod}: {st.targets[0].id} = {f.name}(...) expanded into the function it returns")
+        still = _names_used_anywhere(modules)
+        tree.body = [s for s in tree.body if not (isinstance(s, ast.FunctionDef) and s.name in facts and s.name not in still)]
+    # (c2) `return _factory(<constants>)(<names>)`: the nested function's body takes the place of the return
+    for mod, (rel, src, tree) in modules.items():
+        facts = {s.name: s for s in tree.body if isinstance(s, ast.FunctionDef) and s.name.startswith("_")
+                 and s.name not in inv and not s.decorator_list}
+        if not facts:
+            continue
+        counter = [5000]
+        for fn in [n for n in ast.walk(tree) if isinstance(n, ast.FunctionDef)]:
+            for blk in _blocks(fn):
+                for i, st in enumerate(list(blk)):
+                    if isinstance(st, ast.Return) and isinstance(st.value, ast.Call) and isinstance(st.value.func, ast.Call) \
+                            and isinstance(st.value.func.func, ast.Name) and st.value.func.func.id in facts \
+                            and all(isinstance(x, ast.Constant) for x in st.value.func.args) \
+                            and all(isinstance(x, ast.Name) for x in st.value.args):
+                        f = facts[st.value.func.func.id]
+                        body = _docless(f.body)
+                        if len(body) == 2 and isinstance(body[0], ast.FunctionDef) and isinstance(body[1], ast.Return) \
+                                and isinstance(body[1].value, ast.Name) and body[1].value.id == body[0].name \
+                                and len(f.args.args) == len(st.value.func.args) \
+                                and len(body[0].args.args) == len(st.value.args):
+                            inner = copy.deepcopy(body[0])
+                            inner = _Renamer({p_.arg: v for p_, v in zip(f.args.args, st.value.func.args)}, "", set()).visit(inner)
+                            h = Helper(inner, None, True)
+                            binding = {p_.arg: a_ for p_, a_ in zip(inner.args.args, st.value.args)}
+                            new_ = _instantiate(h, binding, counter, None, True)
+                            if new_ is not None:
+                                k = blk.index(st)
+                                blk[k:k + 1] = new_
+                                log.append(f"{mod}: {f.name}(...)(...) in {fn.name} unfolded")
+        still = _names_used_anywhere(modules)
+        tree.body = [s for s in tree.body if not (isinstance(s, ast.FunctionDef) and s.name in facts and s.name not in still)]
+    # (l) a decorator that only composes other decorators
+    for mod, (rel, src, tree) in modules.items():
+        comps = {}
+        for s in tree.body:
+            if isinstance(s, ast.FunctionDef) and s.name.startswith("_") and s.name not in inv and len(s.args.args) == 1:
+                b = _docless(s.body)
+                if len(b) == 1 and isinstance(b[0], ast.Return):
+                    chain, e = [], b[0].value
+                    while isinstance(e, ast.Call) and isinstance(e.func, ast.Name) and len(e.args) == 1 and not e.keywords:
+                        chain.append(e.func.id)
+                        e = e.args[0]
+                    if chain and isinstance(e, ast.Name) and e.id == s.args.args[0].arg:
+                        comps[s.name] = chain
+        if comps:
+            for (_, _, t2) in modules.values():
+                for fdef in [n for n in ast.walk(t2) if isinstance(n, ast.FunctionDef)]:
+                    new = []
+                    for d in fdef.decorator_list:
+                        if isinstance(d, ast.Name) and d.id in comps:
+                            new.extend(ast.copy_location(ast.Name(id=nm, ctx=ast.Load()), d) for nm in comps[d.id])
+                            log.append(f"{mod}: composite decorator {d.id} on {fdef.name} expanded")
+                        else:
+                            new.append(d)
+                    fdef.decorator_list = new
+    for mod, (rel, src, tree) in modules.items():
+        ast.fix_missing_locations(tree)
+
+
+def _names_used_anywhere(modules) -> Set[str]:
+    out: Set[str] = set()
+    for (_, _, t) in modules.values():
+        for n in ast.walk(t):
+            if isinstance(n, ast.Name) and isinstance(n.ctx, ast.Load):
+                out.add(n.id)
+            elif isinstance(n, ast.Attribute):
+                out.add(n.attr)
+    return out
+
+
+class _Idioms(ast.NodeTransformer):
+    """Equivalent standard-library spellings: zip(count(), X) = enumerate(X); cast(T, x) = x;
+    getattr(o, "name") = o.name; tuple(chain(A, B)) = (*A, *B); chain.from_iterable(X) = (i for p in X for i in p)."""
+
+    def __init__(self, log, mod):
+        self.log, self.mod = log, mod
+
+    def visit_Call(self, n):
+        self.generic_visit(n)
+        fn = ast.unparse(n.func)
+        if fn == "zip" and len(n.args) == 2 and isinstance(n.args[0], ast.Call) and not n.args[0].args \
+                and ast.unparse(n.args[0].func) in ("itertools.count", "count") and not n.keywords:
+            self.log.append(f"{self.mod}: zip(count(), X) read as enumerate(X)")
+            return ast.copy_location(ast.Call(func=ast.Name(id="enumerate", ctx=ast.Load()), args=[n.args[1]], keywords=[]), n)
+        if fn in ("cast", "typing.cast") and len(n.args) == 2 and not n.keywords:
+            self.log.append(f"{self.mod}: typing.cast dropped")
+            return n.args[1]
+        if fn == "getattr" and len(n.args) == 2 and isinstance(n.args[1], ast.Constant) and isinstance(n.args[1].value, str) \
+                and n.args[1].value.isidentifier() and not n.keywords:
+            return ast.copy_location(ast.Attribute(value=n.args[0], attr=n.args[1].value, ctx=ast.Load()), n)
+        if fn in ("chain.from_iterable", "itertools.chain.from_iterable") and len(n.args) == 1:
+            g = ast.GeneratorExp(
+                elt=ast.Name(id="_i", ctx=ast.Load()),
+                generators=[ast.comprehension(target=ast.Name(id="_p", ctx=ast.Store()), iter=n.args[0], ifs=[], is_async=0),
+                            ast.comprehension(target=ast.Name(id="_i", ctx=ast.Store()), iter=ast.Name(id="_p", ctx=ast.Load()),
+                                              ifs=[], is_async=0)])
+            return ast.copy_location(g, n)
+        if fn == "tuple" and len(n.args) == 1 and isinstance(n.args[0], ast.Call) \
+                and ast.unparse(n.args[0].func) in ("chain", "itertools.chain") and not n.args[0].keywords:
+            elts = []
+            for a in n.args[0].args:
+                if isinstance(a, (ast.Tuple, ast.List)):
+                    elts.extend(a.elts)
+                else:
+                    elts.append(ast.Starred(value=a, ctx=ast.Load()))
+            self.log.append(f"{self.mod}: tuple(chain(...)) read as a starred tuple")
+            return ast.copy_location(ast.Tuple(elts=elts, ctx=ast.Load()), n)
+        return n
